@@ -11,12 +11,28 @@ EXPECT = {
     'H_ST_bitarray': {'set-fail-oob': 'proved', 'set-get': 'viol', 'panic:index-out-of-range': 'viol'},
     'H_ST_iface': {'area': 'proved', 'assert-type': 'proved'},
     'H_ST_recover': {'recovered-iff-oob': 'proved'},
+    'H_ST_bigbv_words': {
+        'wide-is-not-uint64': 'proved', 'wide-has-nine-bytes': 'proved', 'narrow-sum-is-the-machine-sum': 'proved',
+        'probe-low-word-of-wide-sum': 'viol', 'uint64-of-negative-is-low-word-of-magnitude': 'proved',
+        'int64-of-negative-wraps': 'proved', 'masked-negative-is-positive': 'proved',
+        'mask-adds-two-to-the-256': 'proved', 'probe-uint64-of-negative': 'viol', 'bits-of-masked-negative': 'proved',
+        'bytes-roundtrip': 'proved', 'difference-magnitude': 'proved', 'neg-is-additive-inverse': 'proved',
+        'abs-nonneg': 'proved', 'not-is-minus-x-minus-one': 'proved'},
+    'H_ST_bigbv_division': {
+        'euclidean-remainder-range': 'proved', 'truncated-minus-seven-by-two': 'proved', 'seven-by-minus-two': 'proved',
+        'probe-truncated-quotient': 'viol', 'probe-truncated-remainder': 'viol', 'minus-seven-by-two': 'proved', 'probe-euclidean-quotient': 'viol',
+        'probe-euclidean-remainder-negative-operands': 'viol', 'floor-below-truncation': 'proved'},
+    'H_ST_bigbv_shifts_and_bytes': {
+        'five-bytes-fit-forty-bits': 'proved', 'lsh-adds-bits': 'proved', 'rsh-inverts-lsh': 'proved',
+        'bytes-are-minimal': 'proved', 'leading-zero-bytes-dropped': 'proved', 'probe-setbytes-is-big-endian': 'viol',
+        'triple-fits-forty-two-bits': 'proved', 'probe-product': 'viol', 'rsh-of-negative-floors': 'proved', 'rsh-negative-symbolic-floors': 'proved',
+        'or-xor-low-bit': 'proved'},
 }
 
 
 def main():
     W = os.path.join(R.VERIF, '.work', 'selftest_%d' % os.getpid())
-    hf = [os.path.join(R.VERIF, 'selftest', 'st_basic.go')]
+    hf = [os.path.join(R.VERIF, 'selftest', 'st_basic.go'), os.path.join(R.VERIF, 'selftest', 'st_bigbv.go')]
     bad = []
     try:
         res = R.run_harnesses('libs/common', hf, W)
